@@ -3,6 +3,7 @@ mod assets;
 mod corrupt;
 mod defs;
 mod exec;
+mod forge;
 mod harness;
 mod jumbf;
 mod media;
